@@ -68,6 +68,31 @@ type Result struct {
 	nodes             []node
 }
 
+// DeepestPaths returns the action paths of up to limit nodes of the deepest level reached, evenly spread.
+func (r *Result) DeepestPaths(limit int) [][]string {
+	max := 0
+	for _, n := range r.nodes {
+		if n.depth > max {
+			max = n.depth
+		}
+	}
+	var idx []int
+	for i, n := range r.nodes {
+		if n.depth == max {
+			idx = append(idx, i)
+		}
+	}
+	var out [][]string
+	step := 1
+	if limit > 0 && len(idx) > limit {
+		step = len(idx) / limit
+	}
+	for k := 0; k < len(idx) && (limit <= 0 || len(out) < limit); k += step {
+		out = append(out, r.pathOf(idx[k]))
+	}
+	return out
+}
+
 // PathOf returns the action path of node i.
 func (r *Result) pathOf(i int) []string {
 	var p []string
